@@ -104,6 +104,7 @@ type Pkg struct {
 
 // Module is a whole workload.
 type Module struct {
+	Ext       int         `json:"ext,omitempty"` // the first Ext packages (and simrt) live in the dependency module dep.example
 	Pkgs      []*Pkg      `json:"pkgs"`
 	Types     []*Type     `json:"types"`
 	Sets      []*Set      `json:"sets"`
@@ -123,6 +124,7 @@ type Knobs struct {
 	ValuePct   int
 	ArgPct     int
 	Chain      bool // long dependency chains (deep cleanup stacks)
+	ExtPkgs    int  // leading packages placed in the dependency module (vendored in vendor layouts)
 }
 
 // RandomKnobs draws swarm parameters.
@@ -159,6 +161,9 @@ var anonPool = []string{"embed", "unicode/utf8", "sort", "errors", "strings", "u
 // Generate draws a module.
 func Generate(r *rand.Rand, k Knobs) *Module {
 	m := &Module{}
+	if k.ExtPkgs > 0 && k.NPkgs > 1 {
+		m.Ext = minInt(k.ExtPkgs, k.NPkgs-1)
+	}
 	usedPaths := map[string]bool{}
 	for i := 0; i < k.NPkgs; i++ {
 		p := &Pkg{Idx: i}
@@ -372,6 +377,9 @@ func Generate(r *rand.Rand, k Knobs) *Module {
 	}
 	// injectors
 	for _, p := range m.Pkgs {
+		if p.Idx < m.Ext {
+			continue // no injectors in the dependency module
+		}
 		for j := 0; j < k.InjPerPkg; j++ {
 			if inj := m.genInjector(r, k, p, j); inj != nil {
 				m.Injectors = append(m.Injectors, inj)
